@@ -14,7 +14,7 @@ from mirsym.summ_core import Ok, Err, Some, NONE, VecV, ListIt
 from mirsym.summ_serde import TVal, TomlText
 from mirsym.run import Inconclusive
 from harness.layers import *
-from harness import C01
+from harness import C01, C02
 
 SHARDS = {"quick": 14, "thorough": 15}
 CRATES = C01.CRATES
@@ -41,12 +41,13 @@ def fault_spec(w):
 
 def main(run):
     rich = run.tier == "thorough"
-    run.bounds = {"operations": "struct-API cached/uncached request (C01 universe), LayerRef::{write_metadata, write_sboms, write_exec_d_programs}, and the phase entry point "
+    run.bounds = {"operations": "struct-API cached/uncached request (C01 universe), LayerRef::{write_metadata, write_sboms, write_exec_d_programs}, trait-API BuildContext::handle_layer "
+                                "(C02's scripted Layer: every strategy / migration / create / update result shape incl. env in 4 scopes, exec.d, SBOM), and the phase entry point "
                                 "libcnb_runtime as detect (pass with a plan) and as build (launch.toml, store.toml, three SBOM files, existing store.toml read)",
                   "fault position": "every registered file-system call of the path (solver variable), one fault per run",
                   "errno": "any non-NotFound error (the code only distinguishes NotFound)"}
     run.assumptions = C01_ASSUME + ["metadata probes (exists/is_dir/is_file) are not fault positions: std maps their errors to `false`"]
-    run.outside = ["partial writes inside one write(2) call", "faults in trait-API handling"]
+    run.outside = ["partial writes inside one write(2) call", "trait API: the rich (thorough) layer universe of C02; faults inside the buildpack's own callbacks"]
     P = run.program(CRATES)
     install_all(P)
     fns = {}
@@ -149,9 +150,26 @@ def main(run):
         bad = code in (0, 100, "returned") or ctx.calls.count("on_error") > 1
         return {"class": ("Ok" if bad else "Err") + f":exit={code}:calls={','.join(ctx.calls)}"}
 
-    stats = {"faulted": 0, "unfaulted": 0, "positions": {}}
+    # ---- trait API: BuildContext::handle_layer with C02's scripted Layer implementation (strategy / migration / create / update results)
+    # quick: two result shapes (process-scope env; env + exec.d + SBOM), no `default` callback answers, no bystander layer; thorough: all seven shapes, every answer, bystander present
+    trait_entry = C02.build_entry(run, P, results=None if rich else ["env-web", "full"], lean=not rich)
+
+    def world_trait(ctx):
+        ctx.thorough = False        # C02's quick universe (one SBOM format); the fault position is the subject here
+        w = C02.make_world(ctx)
+        if not rich:
+            for nm in ("n2_dir", "n2_toml", "k_n2_f"):
+                ctx.assume(z3.Int(nm) == ABSENT)
+            ctx.assume(z3.Not(z3.Bool("n1_doc_has_unknown_key")))
+        return arm(ctx, w)
+
+    def entry_trait(ctx):
+        out = trait_entry(ctx)
+        return {"class": out["res"]}
+
+    stats = {"faulted": 0, "unfaulted": 0, "positions": {}, "by_label": {}}
     pending = []
-    for label, entry, wf in (("request", entry_req, world_req), ("writer", entry_wr, world_wr), ("phase", entry_phase, world_phase)):
+    for label, entry, wf in (("request", entry_req, world_req), ("writer", entry_wr, world_wr), ("phase", entry_phase, world_phase), ("trait", entry_trait, world_trait)):
         res = run.explore(P, entry, lambda ctx: [], wf, max_paths=2000000, max_depth=60)
         run.log(f"{label}: {len(res)} paths")
         for ctx, (kind, out) in res:
@@ -163,9 +181,12 @@ def main(run):
                 stats["unfaulted"] += 1
                 continue
             stats["faulted"] += 1
+            stats["by_label"][label] = stats["by_label"].get(label, 0) + 1
             spec, nm, path = fault_spec(w)
             stats["positions"][nm] = stats["positions"].get(nm, 0) + 1
             want = (C01.model_terms(ctx) if label != "phase" else []) + [z3.Int("k_n1_exec_d_p2"), z3.Int("fault_at")]
+            if label == "trait":
+                want += C02.MODEL_TERMS()
             run.obligation()
             ok = out["class"].startswith("Err")
             ans, m = run.check(ctx.pc + [z3.BoolVal(not ok)], "fault-is-reported", want=want)
@@ -175,13 +196,14 @@ def main(run):
                 ans, m = run.check(ctx.pc, "witness", want=want)
                 if ans == "sat":
                     pending.append((label, ctx, out, m, spec, None))
-    run.extra["fault_stats"] = {"faulted": stats["faulted"], "unfaulted": stats["unfaulted"]}
+    run.extra["fault_stats"] = {"faulted": stats["faulted"], "unfaulted": stats["unfaulted"], "by_operation": stats["by_label"]}
     run.extra["fault_positions"] = stats["positions"]
     cands = [p for p in pending if p[5] is not None]
-    wit = [p for p in pending if p[5] is None and p[0] != "phase"]
+    wit = [p for p in pending if p[5] is None and p[0] not in ("phase", "trait")]
+    wit_trait = [p for p in pending if p[5] is None and p[0] == "trait"]
     wit_phase = [p for p in pending if p[5] is None and p[0] == "phase"]
     # every fault replay is its own process (LD_PRELOAD injector): a bounded sample of witnesses, every candidate, every phase fault
-    pending = cands + wit[::max(1, len(wit) // (40 if run.tier == "quick" else 120))] + wit_phase
+    pending = cands + wit[::max(1, len(wit) // (40 if run.tier == "quick" else 120))] + wit_phase + wit_trait[::max(1, len(wit_trait) // (25 if run.tier == "quick" else 80))]
     for label, ctx, out, m, spec, sig in pending:
         if label == "phase":
             scn = dict(PHASE_REQ, argv=[a if a != "/PL" else "/L" for a in ctx.argv], behaviour="pass+plan" if ctx.phase == "detect" else PHASE_REQ["behaviour"], request="phase:" + ctx.phase, arm="child")
@@ -201,6 +223,23 @@ def main(run):
                     run.sample({"operation": "phase:" + ctx.phase, "fault": spec_real, "exit": real["exit"]}, limit=10)
             else:
                 run.candidate(f"phase:fault-not-reported:{spec.split(':')[0]}", f"{ctx.phase} with fault {spec_real} -> exit {real['exit']} calls {real['calls']}", {"scenario": scn, "fault": spec_real}, not real_err)
+            continue
+        if label == "trait":
+            scn = C02.scenario_of(ctx, m)
+            scn["arm"] = True
+            real = run.replay.run_faulty(scn, spec)
+            if "panic" in real or "error" in real:
+                run.mismatch(f"faulty replay failed: {real} fault {spec} scenario {json.dumps(scn)[:900]}")
+                continue
+            real_err = real["result"].startswith("Err")
+            run.stats["validated"] += 1
+            if sig is None:
+                if not real_err:
+                    run.mismatch(f"trait: fault {spec} predicted {out['class']} but the real call returned {real['result']}; scenario {json.dumps(scn)[:600]}")
+                else:
+                    run.sample({"operation": "trait:" + ",".join(e["cb"] + "=" + e["answer"] for e in scn["script"]), "fault": spec, "result": real["result"]}, limit=14)
+            else:
+                run.candidate(f"trait:fault-not-reported:{spec.split(':')[0]}", f"handle_layer script {[(e['cb'], e['answer']) for e in scn['script']]} with fault {spec} -> {real['result']}", {"scenario": scn, "fault": spec}, not real_err)
             continue
         scn = C01.scenario_of(ctx, m) if label == "request" else C01.writer_scenario(ctx, m)
         if label == "writer":
@@ -236,6 +275,9 @@ def finalize(run):
     if not fs_.get("faulted"):
         run.inconclusive.append("vacuity: no path with an injected fault")
     pos = run.extra.get("fault_positions", {})
+    for need in ("request", "writer", "phase", "trait"):
+        if not fs_.get("by_operation", {}).get(need):
+            run.inconclusive.append(f"vacuity: no faulted path for operation {need}")
     for need in ("write", "read", "mkdir", "unlink", "rmdir", "chmod", "opendir"):
         if not pos.get(need):
             run.inconclusive.append(f"vacuity: no fault at a {need} call")
